@@ -17,7 +17,7 @@ from .. import engine, common
 ID = "C03"
 
 DEPS = ["impl", "gi", "gw", "vg", "vi", "conc", "vconc", "nodeps"]
-QUALS = ["", "async", "unsafe", 'extern "C"', 'unsafe extern "C"']
+QUALS = ["", "async", "unsafe", 'extern "C"', 'unsafe extern "C"', "async unsafe"]
 OPTS = ["", "mock", "mockall", "?Send"]
 # extra parameter symbols: (declaration, generic params, where predicates, argument expr, pointer type, needs)
 EXTRA = {
@@ -28,6 +28,10 @@ EXTRA = {
     "tw": dict(decl="u: U", gen=["U"], where=["U: Bound + ::core::marker::Send"], arg="4i64", ptr="i64"),
     "cn": dict(decl="c: [u8; N]", gen=["const N: usize"], arg="[0u8; 2]", ptr="[u8; 2]"),
     "it": dict(decl="it: impl Bound + ::core::marker::Send", arg="5i64", ptr="i64"),
+    # parameter patterns (C16 owns these; here they ride along with the other signature features)
+    "dp": dict(decl="(p, q): (i64, i64)", arg="(6, 7)", ptr="(i64, i64)"),
+    "mb": dict(decl="mut m: i64", arg="8", ptr="i64"),
+    "wl": dict(decl="_: u8", arg="9u8", ptr="u8"),
 }
 RETS = {
     "unit": dict(ty="", body="", out="()", ptr="()"),
@@ -57,13 +61,15 @@ def enumerate_states(tier):
             continue            # the same symbol twice would declare the same parameter / generic name twice
         if R.get("elided") and any(EXTRA[x].get("ref") for x in w):
             continue            # elided output with two reference inputs is not Rust
-        if o == "?Send" and q != "async":
+        if o == "?Send" and "async" not in q:
             continue
         if o == "mock" and not feature:
             continue            # mock_api only switches unimock on with the crate feature; off it is covered by C04/C10
         if tier != "thorough" and feature and o in ("", "?Send") and q not in ("", "async"):
+            continue
+        if tier != "thorough" and any(x in ("dp", "mb", "wl") for x in w) and (o != "" or deps not in ("impl", "nodeps", "conc")):
             continue            # the feature only matters through the mock options
-        key = "g_%s_%s_%s_%s_%s_%s" % (deps, "_".join(w) or "0", {"": "s", "async": "a", "unsafe": "u", 'extern "C"': "e", 'unsafe extern "C"': "ue"}[q],
+        key = "g_%s_%s_%s_%s_%s_%s" % (deps, "_".join(w) or "0", {"": "s", "async": "a", "unsafe": "u", 'extern "C"': "e", 'unsafe extern "C"': "ue", "async unsafe": "au"}[q],
                                        r, {"": "p", "mock": "m", "mockall": "ma", "?Send": "ms"}[o], "fon" if feature else "foff")
         states.append(dict(key=key, deps=deps, word=list(w), qual=q, ret=r, opt=o, feature=feature))
     return states, len(states), dict(deps=DEPS, extra_params=list(EXTRA), word_len=maxlen, quals=QUALS, returns=list(RETS), options=OPTS)
@@ -110,7 +116,7 @@ def pieces(s):
 def render(s):
     key, deps, w, q, R = s["key"], s["deps"], s["word"], s["qual"], RETS[s["ret"]]
     P = pieces(s)
-    asy = q == "async"
+    asy = "async" in q
     unsafe = "unsafe" in q
     opts = ["pub Tr"] + (["no_deps"] if deps == "nodeps" else []) + \
         {"": [], "mock": ["mock_api = TrMock"], "mockall": ["mockall"], "?Send": ["?Send"]}[s["opt"]]
@@ -142,7 +148,8 @@ def render(s):
             e = "unsafe { %s }" % e
         return e
 
-    L.append("    pub fn client() {")
+    # (deny(unused_unsafe): if the fn or the method silently stopped being `unsafe`, the unsafe blocks below are rejected)
+    L.append("    #[deny(unused_unsafe)] pub fn client() {")
     L.append("        let x = X(2);")
     for name, path, is_trait in (("d", "f", False), ("t", "Tr::f", True)):
         recv_ref = mkapp if byval else "&app"
